@@ -400,6 +400,11 @@ func c02Nontrivial(w *CliWorld) bool {
 
 // RunCli executes one client-side plan: workload, drain, final oracle, teardown.
 func RunCli(plan *CliPlan, tape *Tape, searchSeed uint64, prop string, online func(*CliWorld) *Violation, final func(*CliWorld) *Violation, post func(*CliWorld, *RunResult)) *RunResult {
+	return RunCliLate(plan, tape, searchSeed, prop, online, final, nil, post)
+}
+
+// RunCliLate is RunCli with an oracle evaluated after the teardown (local Close, server gone, a minute of fake time).
+func RunCliLate(plan *CliPlan, tape *Tape, searchSeed uint64, prop string, online func(*CliWorld) *Violation, final func(*CliWorld) *Violation, late func(*CliWorld) *Violation, post func(*CliWorld, *RunResult)) *RunResult {
 	res := &RunResult{Property: prop, Family: plan.Family}
 	sim := NewSim(tape, NewRNG(searchSeed))
 	w := NewCliWorld(sim, plan)
@@ -423,6 +428,13 @@ func RunCli(plan *CliPlan, tape *Tape, searchSeed uint64, prop string, online fu
 		w.PeerClose()
 		sim.RunPhase(w, time.Minute, false)
 		w.Check()
+		if sim.Viol == nil && sim.Steps < sim.MaxSteps && late != nil {
+			w.srvReceive()
+			w.drainEvents()
+			if v := late(w); v != nil {
+				sim.Viol = v
+			}
+		}
 	}
 	if post != nil {
 		post(w, res)
